@@ -109,3 +109,7 @@ def register_all(reg):
     reg("C09", "netx", "model_checking", "explicit-state search of the real DBA computations over a virtual FIFO network (all interleavings, start orders, initial values, tie picks; state caching)",
         "On small CSPs (all {0,infinity} pair tables, graph colouring on chain / triangle, 2-3 colours, max_distance at or above the diameter) every reachable state up to a cycle horizon is visited; inside every finished() notification the values held by all computations must violate no constraint.",
         NETX_NOTE + " Safety property up to a horizon of 3-6 cycles per computation.", "DESIGN.md 3 C09")
+
+    reg("C10", "netx", "model_checking", "explicit-state search of the real computations of every shipped algorithm over a virtual FIFO network with a value_selection / current_value monitor",
+        "Every shipped algorithm (incl. gdba variants, A-DSA tick events, Max-Sum with default noise and damping) is run with default parameters on small instances with int / str / 3-valued domains, own costs and isolated variables; 2-valued pairs under all interleavings and random answers, the rest under 3 canonical schedules; every value_selection argument and every current_value after every step must be None or a domain member.",
+        NETX_NOTE + " Handler exceptions end a path and are listed in the evidence notes (they are other properties' subject).", "DESIGN.md 3 C10")
